@@ -63,6 +63,12 @@ def run_stream(out, stream, cases, via_manager=False):
             else:
                 if id(s) not in remotes: remotes[id(s)] = SwitcherBreezeRemote(s)      # one remote object serves every request on its set
                 r = remotes[id(s)]
+            if k % 3 == 0:           # an application looks at the per-mode feature table first, also for modes the set may lack: reading changes nothing
+                for m in ThermostatMode:
+                    try: r.modes_features[m]
+                    except Exception: pass
+                    try: r.modes_features.get(m)
+                    except Exception: pass
             io_caps.append(caps_impl(r)); io.append(build_impl(r, c["q"]))
     finally:
         if tmp:
@@ -102,7 +108,7 @@ def shaped_sets(rnd):
                     else:
                         keys = [k for gp, gq in groups for k in gp + gq]
                         keys = keys[::-1] if order == "reversed" else rnd.sample(keys, len(keys))
-                    if not toggle: keys.append("off")
+                    if not toggle or order in ("plain-first", "shuffled"): keys.append("off")
                     waves = [{"Key": k, "Para": "P", "HexCode": (k.upper().encode().hex() + "%03d" % i).upper()} for i, k in enumerate(keys)]
                     out.append({"IRSetID": rnd.choice(["DLK65863", "ELEC7001"]), "OnOffType": 1 if toggle else 0, "IRWaveList": waves,
                                 "shape": "%s swing=%s fans=%s order=%s" % ("toggle" if toggle else "plain", swing_where, fans, order)})
